@@ -15,6 +15,7 @@ import sys
 from pathlib import Path
 
 import core
+import workflow
 import projmodel
 from props import c05
 
@@ -232,8 +233,11 @@ def run(ctx: core.Ctx) -> int:
                 pass
         if r.get("event"):
             r["event"] = {k: r["event"][k] for k in ("label", "exit", "fsev", "crash", "dep5After", "tomlAfter")}
+    # Workflow.tla: convert-dep5 interleaved with annotate / download / lint: where the declaration lives, what files are seen to declare
+    wf = workflow.stage(ctx, ("C17.", "crash"))
+    mc_viol = list(mc_viol) + wf["mc_violations"]
     return ctx.finish(
-        evaluations=len(usable) + len(events),
+        evaluations=len(usable) + len(events) + len(wf["events"]),
         distinct_nontrivial=len({"".join(b["pattern"]) for b in usable if any(c in "*?\\" for c in b["pattern"])}),
         rule="languages: every well-formed dep5 pattern over {a . / * ? \\} up to MaxLen (TLC) + seeded longer ones, each "
              "compared with the compiled matcher of its converted glob for ALL paths (product exploration); projects: 1-3 "
